@@ -171,7 +171,7 @@ std::complex<T> permanent_cpp(Matrix<std::complex<T>> &A, Vector<int> &rows, Vec
         int *gcode = gcode_counter.get();
 
         // calculate the initial column sum and binomial coefficient
-        int binomial_coeff = 1;
+        int64_t binomial_coeff = 1;
 
         Matrix<TComplex> colsum(1, cols.size());
         std::uninitialized_copy_n(A.data, colsum.size(), colsum.data);
@@ -195,7 +195,7 @@ std::complex<T> permanent_cpp(Matrix<std::complex<T>> &A, Vector<int> &rows, Vec
             minus_signs_all += minus_signs;
 
             // update the binomial coefficient
-            binomial_coeff *= binomialCoeff<int>(row_mult_current, minus_signs);
+            binomial_coeff *= binomialCoeff<int64_t>(row_mult_current, minus_signs);
         }
 
         // variable to refer to the parity of the delta vector (+1 if even, -1 if odd)
